@@ -247,7 +247,16 @@ fn check_written_header(w: &[u8], spec: &ModelSpec) -> PResult {
 
 fn prop_history(c: &EditCase, ctx: &Ctx) -> PResult {
     let mut spec = realise(&c.model, &WRITE_PAIRS, true);
-    let built = encode(&spec);
+    let mut built = encode(&spec);
+    // A third of the histories start from a file whose header understates the runtime block (a field the reader
+    // does not consult): an edit must lay the file out from the real sizes, not from what the header claimed.
+    // (only where an edit is actually carried out: a history without one writes the header back as it was read)
+    if c.model.seed % 3 == 0 && c.edits.iter().any(|e| matches!(e, Edit::ReplaceLod { .. } | Edit::RemoveShapeMeshes)) {
+        let declared = u32::from_le_bytes(built.bytes[8..12].try_into().unwrap());
+        let lowered = declared.saturating_sub(64 * (1 + (c.model.seed >> 8) % 8) as u32);
+        built.bytes[8..12].copy_from_slice(&lowered.to_le_bytes());
+        ctx.class("history:header-understates-runtime-size");
+    }
     let mut mdl = parse(&built.bytes, "the generated model")?;
     let mut expected = built.expected.clone();
     let mut changed_vertex_mesh: Option<(usize, usize)> = None;
@@ -351,6 +360,15 @@ fn prop_history(c: &EditCase, ctx: &Ctx) -> PResult {
         None => return fail("edited-model-rejected", "the edited model written by write_to_buffer does not parse"),
     };
     compare_model(&m2, &expected, &spec, Some(ctx)).map_err(|f| Failure { slug: format!("after-edit/{}", f.slug), msg: f.msg })?;
+    // everything else the model reports (bounding boxes, bone tables, names, counts ...) must survive the write too:
+    // a section laid over the tail of the runtime block would show here
+    if m2.model_data != mdl.model_data {
+        let a = format!("{:?}", mdl.model_data);
+        let b = format!("{:?}", m2.model_data);
+        let pos = a.bytes().zip(b.bytes()).position(|(x, y)| x != y).unwrap_or(0);
+        let from = pos.saturating_sub(160);
+        return fail("after-edit/model-data-differs", format!("the edited model's data differs after write -> parse near: in memory …{}… vs re-parsed …{}…", &a[from..(pos + 80).min(a.len())], &b[from..(pos + 80).min(b.len())]));
+    }
     ctx.classf(format!("history-length:{}", c.edits.len()));
     if changed_vertex_mesh.is_some() && changed_index_other {
         ctx.nontrivial(format!("{:?}", c).as_bytes());
